@@ -22,6 +22,7 @@ from ..selftest import Twin
 from ._engine import CL, CL_REL, RUNNER, wf_modules
 
 EXPLANATION = __doc__.split("\n\n", 1)[1]
+TECHNIQUE = 'static analysis: clock-domain taint over field-name-sensitive flows (WALL/MONO/adapter), attempt-accounting def-use, finite AST evaluation of stop_after_attempt'
 TRUSTED = ["CPython ast", "time.time()/time.monotonic() semantics"]
 
 FIELDS = ("failed_at", "first_attempt_at", "last_failed_at")
